@@ -116,11 +116,18 @@ H_HIST = [gen_h("hist", 1), gen_h("hist", 2, depth=("3", "4")), gen_h("hist", 3)
           gen_h("hist", 2, depth="12", simulate={"num": 300, "depth": 12}, skip=(True, False)),
           gen_h("hist", 4, depth="10", simulate={"num": 300, "depth": 10}, skip=(True, False))]
 
+def long_job(types, emb, max_n=("10000", "1000000")):
+    """long streams beyond TLC's integer range: oracle = the specification's definitions in i128"""
+    return {"cmd": "direct", "family": "long", "args": {"types": types, "embeddings": emb, "max_n": max_n}}
+
+
 PROPS = {
     "C01": {
         "title": "streaming mean/variance equal the exact statistics",
         "mc": [MC_SEQ],
         "replay": [gen_seq("Mean,Variance", E05)],
+        "direct": [long_job("Mean,Variance", E05)],
+        "apalache": [{"module": "Ind_Variance", "skip": (True, False)}],
         "rule": "every sequence over the lattice {-3,-1,0,2,3} up to the length bound, fed to Mean and Variance under six exact "
                 "affine embeddings (magnitudes 1e-30..1e30, offsets up to 1e12 spreads); distinct = distinct histories; "
                 "non-trivial = n >= 2 and non-constant data",
@@ -132,6 +139,8 @@ PROPS = {
         "title": "merge is equivalent to having seen the concatenated data",
         "mc": [MC_MERGE],
         "replay": [gen_tree(ALLM, E05), gen_hist(ALLM, "E0,E3,E5")],
+        "direct": [long_job(ALLM.replace(",M4", "").replace(",M5", "").replace(",M8", ""), "E0,E3,E5")],
+        "apalache": [{"module": "Ind_Variance", "skip": (True, False)}],
         "rule": "every sequence over {-1,0,2} up to the length bound, cut into every composition of up to K contiguous chunks "
                 "(empty chunks included), merged in every order and direction of adjacent merges (all binary merge trees); "
                 "plus arbitrary add/merge/clone/fresh histories; ten concrete types; six embeddings",
@@ -142,6 +151,7 @@ PROPS = {
         "title": "skewness and kurtosis equal the exact standardized moments",
         "mc": [MC_SEQ],
         "replay": [gen_seq("Skewness,Kurtosis", "E0,E1,E2,E3,E5")],
+        "direct": [long_job("Skewness,Kurtosis", "E0,E1,E2,E3,E5")],
         "rule": "as C01 for Skewness and Kurtosis; the asymmetric lattice yields both signs of skewness, two-point, "
                 "single-outlier, bimodal and progression shapes",
         "bounds": {"quick": "L <= 5", "thorough": "L <= 7"},
@@ -151,6 +161,7 @@ PROPS = {
         "title": "define_moments! estimators of any order equal the exact central moments",
         "mc": [MC_SEQ, MC_P6, MC_P8, MC_P10],
         "replay": [gen_seq(GENERIC, E05), gen_p10(GENERIC, "E0,E1,E3,E5")],
+        "direct": [long_job("Moments4,M6,M10", "E0,E1,E3,E5")],
         "rule": "as C01 for define_moments! types of order 4 (crate's Moments4 and a harness instantiation), 5, 6, 8, 10; "
                 "orders above the specification run's P use the harness's exact i128 evaluation of the definition, "
                 "cross-checked against the specification on every order both carry",
@@ -161,6 +172,7 @@ PROPS = {
         "title": "bias-corrected sample statistics follow their textbook definitions",
         "mc": [MC_SEQ],
         "replay": [gen_pair("Weighted", "seq", "E0:W0,E3:W1,E5:W2", types="WeightedMeanWithError", maxlen=("4", "5")), gen_seq("Variance,Skewness,Kurtosis," + GENERIC, "E0,E1,E2,E3,E5"), gen_tree("Variance,Kurtosis,Moments4,M6", "E0,E3")],
+        "direct": [long_job("Variance,Kurtosis,Moments4,M6", "E0,E3")],
         "rule": "as C01; sample_variance / variance_of_mean / error on every type that has them, sample_skewness and "
                 "sample_excess_kurtosis on all define_moments! types, sentinel rows below the minimum sample size",
         "bounds": {"quick": "L <= 5", "thorough": "L <= 7"},
@@ -179,6 +191,7 @@ PROPS = {
         "title": "empty, one-observation and constant samples follow the documented contract",
         "mc": [MC_W1, MC_C1, MC_SEQ, MC_MERGE],
         "replay": [gen_q("small", "E0"), gen_mm("hist", depth=("3", "3")), gen_pair("Weighted", "seq", "E0:W0,E5:W2", maxlen=("4", "5")), gen_pair("Covariance", "seq", "E0:E0,E3:E5", maxlen=("4", "5")), gen_seq(ALLM, E05), gen_hist(ALLM, "E0")],
+        "direct": [long_job("Mean,Variance,Skewness,Kurtosis,Moments4,M6,M10", E05, max_n="10000")],
         "rule": "every accessor of every type at n = 0..4 and on every constant sequence in the enumerated set, sentinel class "
                 "or exact value required",
         "bounds": {"quick": "L <= 5", "thorough": "L <= 7"},
@@ -188,6 +201,8 @@ PROPS = {
         "title": "variances are never negative and means stay within the data range",
         "mc": [MC_HM, MC_W, MC_C, MC_SEQ, MC_MERGE],
         "replay": [gen_h("hist", 2, depth=("3", "4")), gen_h("hist", 3), gen_pair("Weighted", "tree", "E0:W0,E6:W1,E7:W2,E8:W0,E9:W1", maxlen=("3", "4")), gen_pair("Covariance", "tree", "E6:E7,E8:E9,E9:E6", maxlen=("3", "4")), gen_seq(ALLM, E09), gen_tree(ALLM, "E0,E4,E6,E7,E8,E9"), gen_hist(ALLM, "E6,E7,E8,E9")],
+        "direct": [long_job("Mean,Variance,Skewness,Kurtosis,Moments4,M6,M10", "E0,E6,E7,E8,E9")],
+        "apalache": [{"module": "Ind_Variance", "skip": (True, False)}],
         "rule": "all behaviours of C01/C02 replayed under embeddings without any conditioning bound (one-ulp spreads at 2^52, "
                 "denormals, 1e149, offsets 1e15 spreads); sign and range conditions on every observation",
         "bounds": {"quick": "L <= 5; tree L <= 4", "thorough": "L <= 7; tree L <= 5"},
@@ -220,6 +235,7 @@ PROPS = {
         "replay": [gen_pair("Covariance", "seq", CE, maxlen=("4", "5")),
                    gen_pair("Covariance", "tree", "E0:E0,E3:E5,E5:E3", maxlen=("3", "4")),
                    gen_pair("Covariance", "hist", "E0:E0,E3:E5", depth=("3", "4"))],
+        "apalache": [{"module": "Ind_Covariance", "skip": (True, False)}],
         "rule": "every sequence of pairs over {-1,0,2}^2 up to the length bound (collinear, anti-collinear, partially correlated), "
                 "every chunking and merge tree, arbitrary histories; independent embeddings of x and y; a twin object fed the "
                 "swapped pairs is checked against the swapped specification values",
